@@ -166,6 +166,16 @@ func (bt *Tree) Copy() *Tree {
 		nodeCopies = nodeCopies[1:]
 		for _, e := range n.edges {
 			cpt := &node{key: e.target.key, data: e.target.data}
+			if e.target.data != nil {
+				// Copy the sequences too: the original tree keeps updating them in
+				// place (and swapping them in its data slice) after the copy is taken.
+				cpt.data = make([]encoding.Sequence, len(e.target.data))
+				for i, seq := range e.target.data {
+					if seq != nil {
+						cpt.data[i] = append(encoding.Sequence(nil), seq...)
+					}
+				}
+			}
 			cpn.edges = append(cpn.edges, &edge{label: e.label, target: cpt})
 			nodes = append(nodes, e.target)
 			nodeCopies = append(nodeCopies, cpt)
